@@ -308,7 +308,7 @@ Section Protocol.
   Notation matchb := (matchb digest md5 digest_eqb csz).
   Notation replay := (replay st st0 app).
   Notation connect := (connect digest md5 digest_eqb csz st st0 app).
-  Notation deliver := (deliver st app).
+  Notation deliver := (deliver st app Repaired).
   Notation step := (step digest md5 digest_eqb csz st st0 app).
   Notation run := (run digest md5 digest_eqb csz st st0 app).
   Notation fol := (fol st).
@@ -524,7 +524,8 @@ Section Protocol.
     f_mem f = replay (f_file f) /\ f_aofsz f = flen (f_file f) /\
     match f_ses f with
     | None => True
-    | Some s => l = f_file f ++ s_rest s /\ f_cup f = s_cu s /\ (s_cu s = true -> s_aofsize s <= f_aofsz f)
+    | Some s => l = f_file f ++ s_rest s /\ f_cup f = s_cu s /\ (s_cu s = true -> s_aofsize s <= f_aofsz f) /\
+                s_pos s = f_aofsz f
     end.
 
   Definition inv (l : file) (f : fol) : Prop :=
@@ -583,10 +584,10 @@ Section Protocol.
     intros l f U (Hm & Hsz & Hs). unfold Follow.deliver.
     destruct (f_ses f) as [s|] eqn:Es; [|unfold synced; rewrite Es; auto].
     destruct (s_rest s) as [|r rest] eqn:R; [unfold synced; rewrite Es, R; auto|].
-    destruct Hs as (Hl & Hc & Hcu). try rewrite R in Hl.
+    destruct Hs as (Hl & Hc & Hcu & Hp). try rewrite R in Hl.
     pose proof (U _ _ _ Hl) as Hu. rewrite Hm.
     destruct (app r (replay (f_file f))) as [mem' upd] eqn:A. cbn [snd] in Hu. subst upd.
-    unfold synced. cbn [f_file f_mem f_aofsz f_cup f_ses s_rest s_cu s_aofsize].
+    unfold synced. cbn [f_file f_mem f_aofsz f_cup f_ses s_rest s_cu s_aofsize s_pos].
     pose proof (blen_nonneg r).
     repeat split.
     - rewrite replay_snoc, A. reflexivity.
@@ -594,6 +595,7 @@ Section Protocol.
     - rewrite <- app_assoc. exact Hl.
     - rewrite Hc. reflexivity.
     - intros Hor. destruct (s_cu s) eqn:Ecu; cbn in Hor; [specialize (Hcu eq_refl); lia | lia].
+    - lia.
   Qed.
 
   Lemma upd_ok_snoc : forall l r, upd_ok l -> snd (app r (replay l)) = true -> upd_ok (l ++ [r]).
@@ -618,13 +620,15 @@ Section Protocol.
   Qed.
 
   (* what the environment may do: the leader logs only updating, well-framed commands; a shrunk log
-     is a well-framed log that replays with every record updating.  NOTHING is required of the
-     follower or of the moments at which it connects. *)
+     is a well-framed log that replays with every record updating; no deadline elapses on the follower
+     before it does on the leader (no EOwn).  NOTHING is required of the follower's content or of the
+     moments at which it connects. *)
   Definition ev_ok (w : file * fol) (e : event) : Prop :=
     let '(l, f) := w in
     match e with
     | EAppend r => snd (app r (replay l)) = true /\ 0 < blen r /\ okrec r
     | EShrink l' => upd_ok l' /\ oklog l'
+    | EOwn _ => False      (* convergence is stated for traces without follower-side expiry *)
     | _ => True
     end.
 
@@ -659,9 +663,10 @@ Section Protocol.
       unfold leader_append. destruct (f_ses f) as [s|] eqn:Es; [|split; [exact Hwf | now left]].
       split; [exact Hwf|].
       right. destruct Hs as [Hn|(Hm & Hsz & Hx)]; [discriminate|]. rewrite Es in Hx.
-      destruct Hx as (Hl & Hc & Hcu). unfold synced. cbn. repeat split; auto.
+      destruct Hx as (Hl & Hc & Hcu & Hp). unfold synced. cbn. repeat split; auto.
       rewrite Hl. now rewrite app_assoc.
     - (* shrink *) destruct Hok as [Hu Hw]. split; [exact Hu|split; [exact Hw|split; [exact Hwf|now left]]].
+    - (* own append: excluded by ev_ok *) contradiction.
   Qed.
 
   Lemma run_inv : forall es l f, ok_trace (l, f) es -> inv l f ->
@@ -691,36 +696,49 @@ Section Protocol.
     destruct Hx as (Hl & _). subst l. auto.
   Qed.
 
-  (* never caught-up while lacking commands acknowledged before the (re)connect *)
+  (* never caught-up while lacking commands acknowledged before the (re)connect - also when the
+     follower's own sweeper appends records of its own to the follower's log during the session.
+     s_done (ghost) = the records handed to the follower so far in this session. *)
   Definition session_event (e : event) : Prop :=
-    match e with EDeliver | EPause | EAppend _ => True | _ => False end.
+    match e with EDeliver | EPause | EOwn _ => True | EAppend r => 0 < blen r | _ => False end.
 
-  Definition insession (l1 l : file) (f : fol) : Prop :=
-    synced l f /\ exists s e, f_ses f = Some s /\ s_aofsize s = flen l1 /\ l = l1 ++ e.
+  Definition streaming (kept l1 l : file) (f : fol) : Prop :=
+    wf_log l /\ exists s e, f_ses f = Some s /\ l = kept ++ s_done s ++ s_rest s /\ l = l1 ++ e /\
+      s_aofsize s = flen l1 /\ s_pos s = flen (kept ++ s_done s) /\ f_cup f = s_cu s /\
+      (s_cu s = true -> s_aofsize s <= s_pos s).
 
-  Lemma insession_step : forall l1 l f e, session_event e -> ev_ok (l, f) e -> upd_ok l ->
-    insession l1 l f -> insession l1 (fst (step Repaired (l, f) e)) (snd (step Repaired (l, f) e)).
+  Lemma streaming_step : forall kept l1 l f e, session_event e -> streaming kept l1 l f ->
+    streaming kept l1 (fst (step Repaired (l, f) e)) (snd (step Repaired (l, f) e)).
   Proof.
-    intros l1 l f e He Hok U (Hs & s & x & Es & Ha & Hl). destruct e; cbn in He; try contradiction;
-      cbn [Follow.step fst snd].
-    - split; [now apply deliver_synced|]. unfold Follow.deliver. rewrite Es.
-      destruct (s_rest s) eqn:R; [exists s, x; auto|].
-      destruct (app r (f_mem f)). cbn. eexists _, x. split; [reflexivity|]. cbn. auto.
-    - split; [exact Hs|]. exists s, x. auto.
-    - destruct Hs as (Hm & Hsz & Hx). rewrite Es in Hx. destruct Hx as (Hl' & Hc & Hcu).
-      unfold leader_append. rewrite Es. split.
-      + unfold synced. cbn. repeat split; auto. rewrite Hl'. now rewrite app_assoc.
-      + eexists _, (x ++ [r]). split; [reflexivity|]. cbn. split; [exact Ha|]. rewrite Hl. now rewrite app_assoc.
+    intros kept l1 l f e He (W & s & x & Es & Hl & Hl1 & Ha & Hp & Hc & Hcu).
+    destruct e; cbn in He; try contradiction; cbn [Follow.step fst snd].
+    - (* deliver *) split; [exact W|]. unfold Follow.deliver. rewrite Es.
+      destruct (s_rest s) as [|r rest] eqn:R; [exists s, x; rewrite Es, R; repeat split; auto; now rewrite <- R|].
+      destruct (app r (f_mem f)) as [mem' upd]. cbn [f_ses f_cup].
+      eexists _, x. split; [reflexivity|]. cbn [s_rest s_done s_aofsize s_pos s_cu].
+      pose proof (blen_nonneg r).
+      repeat split; auto.
+      + rewrite Hl. rewrite <- !app_assoc. reflexivity.
+      + rewrite Hp. rewrite !flen_app, flen_cons, flen_nil. lia.
+      + rewrite Hc. reflexivity.
+      + intros Hor. destruct (s_cu s) eqn:Ecu; cbn in Hor; [specialize (Hcu eq_refl); lia | lia].
+    - (* pause *) split; [exact W|]. exists s, x. repeat split; auto.
+    - (* append *) split; [apply wf_log_app; split; [exact W|repeat constructor; exact He]|].
+      unfold leader_append. rewrite Es. eexists _, (x ++ [r]). split; [reflexivity|].
+      cbn [s_rest s_done s_aofsize s_pos s_cu f_cup]. repeat split; auto.
+      + rewrite Hl. rewrite <- !app_assoc. reflexivity.
+      + rewrite Hl1. now rewrite <- app_assoc.
+    - (* the follower's own append *) split; [exact W|]. unfold own_append.
+      destruct (app r (f_mem f)) as [mem' upd]. cbn [f_ses f_cup]. exists s, x. repeat split; auto.
   Qed.
 
-  Lemma insession_run : forall l1 es l0 f0, Forall session_event es -> ok_trace (l0, f0) es -> inv l0 f0 ->
-    insession l1 l0 f0 -> forall l f, run Repaired (l0, f0) es = (l, f) -> inv l f /\ insession l1 l f.
+  Lemma streaming_run : forall kept l1 es l0 f0, Forall session_event es -> streaming kept l1 l0 f0 ->
+    forall l f, run Repaired (l0, f0) es = (l, f) -> streaming kept l1 l f.
   Proof.
-    intros l1. induction es as [|e es IH]; intros l0 f0 Hes Hok Hi Hin l f Hr.
-    - cbn in Hr. inversion Hr; subst. auto.
-    - inversion Hes as [|? ? He1 He2]; subst. destruct Hok as [Ho1 Ho2]. unfold Follow.run in Hr. cbn [fold_left] in Hr.
-      pose proof (step_inv l0 f0 e Ho1 Hi) as Hi'.
-      pose proof (insession_step l1 l0 f0 e He1 Ho1 (proj1 Hi) Hin) as Hin'.
+    intros kept l1. induction es as [|e es IH]; intros l0 f0 Hes Hin l f Hr.
+    - cbn in Hr. inversion Hr; subst. exact Hin.
+    - inversion Hes as [|? ? He1 He2]; subst. unfold Follow.run in Hr. cbn [fold_left] in Hr.
+      pose proof (streaming_step kept l1 l0 f0 e He1 Hin) as Hin'.
       destruct (step Repaired (l0, f0) e) as [l' f'] eqn:Est. cbn [fst snd] in *.
       eapply IH; eauto.
   Qed.
@@ -728,7 +746,7 @@ Section Protocol.
   (* while a (re)connect attempt is under way - stalled or failing at any stage of the handshake, the
      leader possibly acknowledging more writes, further attempts starting - the caught-up flag is off *)
   Definition handshake_event (e : event) : Prop :=
-    match e with EBegin | EDrop | EPause | EAppend _ => True | _ => False end.
+    match e with EBegin | EDrop | EPause | EAppend _ | EOwn _ => True | _ => False end.
 
   Lemma reconnecting_flag : forall md es l f,
     Forall handshake_event es -> f_ses f = None -> f_cup f = false ->
@@ -741,31 +759,45 @@ Section Protocol.
     - apply IH; auto.
     - apply IH; auto.
     - apply IH; auto; unfold leader_append; rewrite Hn; auto.
+    - unfold own_append. destruct (app r (f_mem f)). apply IH; auto.
   Qed.
 
   Lemma reconnecting_not_caught_up : forall md l f es,
     Forall handshake_event es -> f_cup (snd (run md (step md (l, f) EBegin) es)) = false.
   Proof. intros md l f es Hes. cbn [Follow.step]. apply reconnecting_flag; auto. Qed.
 
-  (* l1 = the leader's log when the follower (re)connects, from ANY state of the follower *)
+  (* l1 = the leader's log when the follower (in ANY state) (re)connects; kept = what the follower keeps of
+     its own log at that moment (a record prefix of l1, its dataset being the replay of it:
+     connect_synced).  Whatever happens during the session - deliveries, pauses, leader writes, records the
+     follower's own sweeper appends - the caught-up flag implies that every record of l1 beyond kept has
+     been handed to the follower *)
   Lemma not_premature : forall l1 f1 es,
-    upd_ok l1 -> oklog l1 -> wf_fol f1 ->
-    Forall session_event es -> ok_trace (step Repaired (l1, f1) EConnect) es ->
+    oklog l1 -> wf_fol f1 -> Forall session_event es ->
     forall l f, run Repaired (step Repaired (l1, f1) EConnect) es = (l, f) ->
     f_cup f = true ->
-    exists extra, f_file f = l1 ++ extra /\ f_mem f = replay (f_file f).
+    exists s extra, f_ses f = Some s /\ f_file (connect Repaired l1 f1) ++ s_done s = l1 ++ extra.
   Proof.
-    intros l1 f1 es U W Hwf Hes Hok l f Hr Hcup.
-    cbn [Follow.step] in Hok, Hr.
-    destruct (connect_synced l1 f1 W Hwf) as (Hs & Hwf' & s & Es & Ha).
-    assert (Hi : inv l1 (connect Repaired l1 f1)) by (repeat split; auto; apply Hwf' || apply W).
-    assert (Hin : insession l1 l1 (connect Repaired l1 f1)).
-    { split; [exact Hs|]. exists s, []. rewrite app_nil_r. auto. }
-    destruct (insession_run l1 es _ _ Hes Hok Hi Hin l f Hr) as ((_ & Wl & _) & (Hm & Hsz & Hx) & s' & x & Es' & Ha' & Hl).
-    rewrite Es' in Hx. destruct Hx as (Hl' & Hcu & Hle).
-    rewrite Hcup in Hcu. symmetry in Hcu. specialize (Hle Hcu).
-    assert (E : l1 ++ x = f_file f ++ s_rest s') by congruence.
-    destruct (prefix_compare l1 (f_file f) x (s_rest s') E) as [extra Hx]; [rewrite <- Hl; apply Wl | lia |].
+    intros l1 f1 es W Hwf Hes l f Hr Hcup.
+    cbn [Follow.step] in Hr.
+    destruct (connect_synced l1 f1 W Hwf) as ((Hm & Hsz & Hx) & Hwf' & s & Es & Ha).
+    rewrite Es in Hx. destruct Hx as (Hl & Hc & Hcu & Hp).
+    assert (Hst : streaming (f_file (connect Repaired l1 f1)) l1 l1 (connect Repaired l1 f1)).
+    { split; [apply W|]. exists s, []. rewrite app_nil_r.
+      assert (Hd : s_done s = []).
+      { clear - Es. unfold Follow.connect in Es. revert Es.
+        destruct (check_some Repaired (f_file (begin_connect st f1)) (f_aofsz (begin_connect st f1)) l1) as [res pr].
+        destruct res; cbn;
+          try (destruct (drop_bytes l1 _); cbn; intros E; inversion E; subst; reflexivity);
+          intros E; discriminate. }
+      rewrite Hd, app_nil_r. cbn [List.app]. repeat split; auto; try lia.
+      all: try (intros Hs; specialize (Hcu Hs); lia). }
+    destruct (streaming_run _ l1 es _ _ Hes Hst l f Hr) as (Wl & s' & x & Es' & Hl' & Hl1 & Ha' & Hp' & Hc' & Hcu').
+    rewrite Hcup in Hc'. symmetry in Hc'. specialize (Hcu' Hc').
+    exists s'. 
+    assert (E : l1 ++ x = (f_file (connect Repaired l1 f1) ++ s_done s') ++ s_rest s').
+    { rewrite <- Hl1, Hl'. now rewrite app_assoc. }
+    destruct (prefix_compare l1 (f_file (connect Repaired l1 f1) ++ s_done s') x (s_rest s') E) as [extra Hx];
+      [rewrite <- Hl1; exact Wl | lia |].
     exists extra. auto.
   Qed.
 End Protocol.
